@@ -72,8 +72,10 @@
       and compares with the response to the request stripped of its TSIG RR) is not done; (g) proves,
       in decoded form, the facts that audit checks for responses without answer data;
   (2) for authenticated requests that a loaded zone *answers*, (f) gives the octets (`pre ++ TSIG
-      record`, MAC over `pre`) and C13's `finish_tsig_owner_decodes` the owner; the decoded form needs
-      the content layout of the answering phase's final writer (the same missing induction as in C09);
+      record`, MAC over `pre`) and `C10_tsig_record_last_owner_decodes` the decoded owner at the
+      record's position; that this record is the *last element of the decoded additional section*
+      (`specDecodeMsg`) needs the content layout of the answering phase's final writer (the same
+      missing induction as in C09);
   (3) when the reply's TSIG does not fit (UDP): the response is TC / NOERROR without TSIG — (e), state
       level only.
 -/
@@ -82,6 +84,7 @@ import QV.Proofs.ServerTsig
 import QV.Spec.ServerTsig
 import QV.Proofs.ServerSigned
 import QV.Proofs.ServerSignedDecode
+import QV.Proofs.ServerSignedOwner
 
 namespace QV.C10
 open QV QV.Server QV.Writer QV.Tsig QV.ServerTsig
@@ -574,6 +577,26 @@ theorem C10_decoded_error (cfg : Cfg) (tr : Transport) (now bufLen : Nat) (req :
   refine ⟨List.length_eq_zero_iff.mp c3, List.length_eq_zero_iff.mp c4, rest, o, g1, ?_, g2, g3, g4, g5, ?_⟩
   · rw [g8, hq3, he]; cases (Spec.Server.specScanWith (catKind cfg) cfg.payload req).edns <;> rfl
   · rw [g6, hmac]
+
+open QV.ServerScan in
+/-- **every signed response — answers from loaded zones included.**  With `w1` the writer that
+    `handle_message` hands to `finish` (`answerState`; srvsafe's `prog_safe` shows it satisfies the
+    writer's invariant) and `ts` the TSIG it holds: the response is `pre ++ TSIG record`, the record
+    last, its MAC `macFn ts pre` (none when unsigned), and at position `|pre|` the independent name
+    decoder reads on the response the key name, up to ASCII case (C13's `finish_tsig_owner_decodes`),
+    whether it was written literally or compressed. -/
+theorem C10_tsig_record_last_owner_decodes (cfg : Cfg) (hcfg : ServerSafety.CfgWF cfg) (tr : Transport)
+    (now bufLen : Nat) (req : Bytes) (hbuf : minBuf tr cfg.payload ≤ bufLen) (hpay : 512 ≤ cfg.payload)
+    (hnow : now < 2^48) (hreq : req.size ≤ Rdata.USIZE_MAX) (b : Bytes)
+    (hb : handleMessage cfg tr now bufLen req = .ok (some b))
+    (ts : Writer.Tsig) (hts : (answerState cfg tr now bufLen req).tsig = some ts) :
+    ∃ pre oe mac w k, mac = finishMac macFn ts pre ∧ b.toList = pre ++ tsigRecordOctets oe ts mac ∧
+      NameShape ts.rr.keyName oe ∧
+      Spec.specDecodeName b pre.length = some (w, ts.rr.keyName.len, k) ∧
+      w.map lowerU8 = ts.rr.keyName.wire.map lowerU8 := by
+  obtain ⟨oe, mac, w, k, h1, h2, h3, h4, h5⟩ :=
+    response_tsig_owner_decodes cfg hcfg tr now bufLen req hbuf hpay hnow hreq b hb ts hts
+  exact ⟨_, oe, mac, w, k, h1, h2, h3, h4, h5⟩
 
 /-! ## non-vacuity: concrete instances of the hypotheses used above -/
 
